@@ -1,7 +1,9 @@
 package main
 
 import (
+	"fmt"
 	"go/ast"
+	"os"
 	"strings"
 )
 
@@ -11,6 +13,7 @@ type gen struct {
 	done  map[string]*summary
 	inpr  map[string]bool
 	order []string
+	nfail int
 }
 
 var pkgOrder = []string{"utils", "mimc7", "poseidon", "babyjub"}
@@ -24,7 +27,14 @@ func pkgRank(n string) int {
 	return -1
 }
 
-func (g *gen) summaryOf(pn, key string, from *tr) *summary {
+// transErr: a function cannot be translated.  It is raised by tr.fail /
+// pkg.failAt, caught per function in summaryOf: the function gets a marker
+// definition instead of its translation and the run goes on (exit status 3).
+type transErr struct{ msg string }
+
+func coqNameOf(pn, key string) string { return pn + "_" + strings.ReplaceAll(key, ".", "_") }
+
+func (g *gen) summaryOf(pn, key string, from *tr) (sm *summary) {
 	id := pn + "." + key
 	if sm, ok := g.done[id]; ok {
 		return sm
@@ -34,20 +44,43 @@ func (g *gen) summaryOf(pn, key string, from *tr) *summary {
 		fatalf("package %s is not loaded (call of %s)", pn, id)
 	}
 	fd, ok := p.funcs[key]
-	if !ok || fd.Body == nil {
-		if from != nil {
+	if from != nil {
+		// problems of the CALLER: raised before this function gets its own handler
+		if !ok || fd.Body == nil {
 			from.fail("call of %s, which is neither a function of the repository nor in the table of external functions", id)
 		}
-		fatalf("function %s not found", id)
+		if pkgRank(from.p.name) < pkgRank(pn) {
+			from.fail("call from package %s into package %s: the generated file orders packages %v", from.p.name, pn, pkgOrder)
+		}
 	}
-	if from != nil && pkgRank(from.p.name) < pkgRank(pn) {
-		from.fail("call from package %s into package %s: the generated file orders packages %v", from.p.name, pn, pkgOrder)
+	defer func() {
+		r := recover()
+		if r == nil {
+			return
+		}
+		te, isTe := r.(transErr)
+		if !isTe {
+			panic(r)
+		}
+		fmt.Fprintln(os.Stderr, "bigintgen: ERROR: "+te.msg)
+		name := coqNameOf(pn, key)
+		sm = &summary{key: key, coqName: name, failed: true, retAlias: -1, resParam: -1,
+			text: "(* " + id + ": TRANSLATION FAILED (see the message of bigintgen); the definition\n   " + name +
+				" is deliberately missing, so that only its equality lemma breaks. *)\n" +
+				"Definition " + name + "__TRANSLATION_FAILED : unit := tt.\n"}
+		delete(g.inpr, id)
+		g.done[id] = sm
+		g.order = append(g.order, id)
+		g.nfail++
+	}()
+	if !ok || fd.Body == nil {
+		panic(transErr{"function " + id + " not found in the repository"})
 	}
 	if g.inpr[id] {
-		fatalf("%s: recursion through %s", p.pos(fd), id)
+		panic(transErr{p.pos(fd) + ": recursion through " + id})
 	}
 	g.inpr[id] = true
-	sm := g.translate(p, key, fd)
+	sm = g.translate(p, key, fd)
 	delete(g.inpr, id)
 	g.done[id] = sm
 	g.order = append(g.order, id)
@@ -166,7 +199,7 @@ func (g *gen) translate(p *pkg, key string, fd *ast.FuncDecl) *summary {
 	}
 	sm := &summary{key: key, params: t.params, results: t.results, hasErr: t.hasErr, writes: t.writes,
 		retAlias: -1, resParam: resParam}
-	sm.coqName = p.name + "_" + strings.ReplaceAll(key, ".", "_")
+	sm.coqName = coqNameOf(p.name, key)
 	if t.retAlias >= 0 {
 		sm.retAlias = t.retAlias
 	}
